@@ -185,6 +185,84 @@ def planModelled : Plan → Bool
   | .un s k src => planModelled src && nodeModelled (.un s k src) && (nodeExprs (.un s k src)).all exprModelled
   | .bin s k l r => planModelled l && planModelled r && (nodeExprs (.bin s k l r)).all exprModelled
 
+/-! the syntactic part of the theorems' hypotheses, evaluated on the generated plans (reported as `ok hyp`; what is
+    not checked here is semantic: expressions cannot fail, datasources deliver their fields) -/
+def scopedB (scope : List String) (es : List PExpr) : Bool := (varsUsedL es).all fun x => scope.contains x
+
+def removableB (f : String) : Plan → Bool
+  | .leaf _ (.ds _ _ _ _ _) => true
+  | .leaf s _ => !s.fields.contains f
+  | .un s k src => removableB f src &&
+      (match k with
+       | .map _ => true | .filter _ => true | .unnest _ => true | .distinct => true
+       | .groupBy _ _ key _ _ =>
+         !s.fields.contains f || (!src.fields.contains f && !(s.fields.take key.length).contains f)
+       | _ => !s.fields.contains f)
+  | .bin s k l r => removableB f l && removableB f r &&
+      (match k with
+       | .sjoin _ _ => true
+       | .ljoin => !l.fields.contains f
+       | .ojoin _ _ _ _ => !s.fields.contains f)
+
+def noMapHasB (f : String) : Plan → Bool
+  | .leaf _ _ => true
+  | .un s (.map _) src => !s.fields.contains f && noMapHasB f src
+  | .un _ _ src => noMapHasB f src
+  | .bin _ _ l r => noMapHasB f l && noMapHasB f r
+
+def noGroupByHasB (f : String) : Plan → Bool
+  | .leaf _ _ => true
+  | .un s (.groupBy _ _ _ _ _) src => !s.fields.contains f && noGroupByHasB f src
+  | .un _ _ src => noGroupByHasB f src
+  | .bin _ _ l r => noGroupByHasB f l && noGroupByHasB f r
+
+def nodupB : List String → Bool
+  | [] => true
+  | x :: xs => !xs.contains x && nodupB xs
+
+def goodSynB : List String → Plan → Bool
+  | outer, .leaf s (.ds _ _ _ preds _) => nodupB s.fields && scopedB (s.fields ++ outer) preds
+  | _, .leaf s _ => nodupB s.fields
+  | outer, .un s k src =>
+    nodupB s.fields && goodSynB outer src &&
+      (match k with
+       | .filter e => s == src.schema && scopedB (src.fields ++ outer) [e]
+       | .distinct => s.fields == src.fields
+       | .map es => scopedB (src.fields ++ outer) es && es.length == s.fields.length
+       | .groupBy aggs aggExprs key _ _ => scopedB (src.fields ++ outer) (aggExprs ++ key) &&
+           aggs.length == aggExprs.length && s.fields.length == key.length + aggs.length
+       | .unnest _ => s.fields == src.fields
+       | .ost keys _ lim => s.fields == src.fields && scopedB (src.fields ++ outer) keys &&
+           (match lim with | some e => scopedB outer [e] | none => true)
+       | .tvf name _ _ => name != "max_diff_watermark" || s.fields == src.fields)
+  | outer, .bin s .ljoin l r =>
+    nodupB s.fields && goodSynB outer l && goodSynB (l.fields ++ outer) r && s.fields == l.fields ++ r.fields
+  | outer, .bin s (.sjoin lk rk) l r =>
+    nodupB s.fields && goodSynB outer l && goodSynB outer r && s.fields == l.fields ++ r.fields &&
+      scopedB (l.fields ++ outer) lk && scopedB (r.fields ++ outer) rk && lk.length == rk.length
+  | outer, .bin s (.ojoin _ _ lk rk) l r =>
+    nodupB s.fields && goodSynB outer l && goodSynB outer r && s.fields == l.fields ++ r.fields &&
+      scopedB (l.fields ++ outer) lk && scopedB (r.fields ++ outer) rk
+
+def prunableB (p : Plan) : Bool :=
+  (collectFields allMapFieldsD p).all (fun f => removableB f p && noGroupByHasB f p) &&
+  (collectFields allDsFieldsD p).all (fun f => removableB f p && noMapHasB f p && noGroupByHasB f p) &&
+  (collectFields allGbFieldsD p).all (fun f => removableB f p && noMapHasB f p)
+where
+  allGbFieldsD : Plan → List String
+    | .un s (.groupBy _ _ key _ _) _ => s.fields.drop key.length
+    | _ => []
+  allMapFieldsD : Plan → List String
+    | .un s (.map _) _ => s.fields
+    | _ => []
+  allDsFieldsD : Plan → List String
+    | .leaf s (.ds _ _ _ _ _) => s.fields
+    | _ => []
+
+/-- `ok` verdict annotated with which hypotheses of the theorems the plan satisfies syntactically -/
+def okWith (p0 : Plan) : String :=
+  if goodSynB [] p0 then (if prunableB p0 then "ok hyp=wellformed+prunable" else "ok hyp=wellformed") else "ok hyp=none"
+
 /-- `plan` ops: the plan the REAL optimizer printed, read by the Lean semantics on the op's tables, must compute the
     same bag as the input plan (a semantic oracle on `optimizer.Optimize` itself, without running the binary) -/
 def judgePlan (rest out : List String) : String :=
@@ -201,7 +279,7 @@ def judgePlan (rest out : List String) : String :=
           if !planModelled p0 then "ok unmodelled" else
           match denote db p0 [], denote db p1 [] with
           | some ra, some rb =>
-            if renderSorted ra == renderSorted rb then "ok"
+            if renderSorted ra == renderSorted rb then okWith p0
             else if anyAmbiguous db p0 [] then
               "known orderby-limit-tiebreak-pruning rows differ only through the tie-break of an ambiguous ORDER BY … LIMIT cut"
             else "bad optimized-plan-computes-different-rows"
